@@ -34,8 +34,15 @@ def cases(draw, tier="quick"):
     pts = draw(gen.points(gen.all_var_names(env), k=3))
     cfg = draw(st.sampled_from(["default", "default", "lowthr"]))
     newp = {p["name"]: draw(st.sampled_from([0.5, 1.0, 2.0, -1.5, 3.0, 0.25])) for p in env["params"]}
+    # a second variable list for the SAME expression object: extra variables inserted / order changed
+    extras = [n for n in gen.all_var_names(env) if n not in set(order)]
+    order2 = list(order)
+    for n in draw(st.permutations(extras))[:draw(st.integers(0, min(2, len(extras))))] if extras else []:
+        order2.insert(draw(st.integers(0, len(order2))), n)
+    if order2 == list(order) and len(order2) > 1 and draw(st.booleans()):
+        order2 = list(draw(st.permutations(order2)))
     return {"env": env, "expr": recipe, "order": list(order), "stratum": stratum, "points": pts,
-            "config": cfg, "newp": newp}
+            "config": cfg, "newp": newp, "order2": order2}
 
 
 def strategy(tier):
@@ -118,6 +125,31 @@ def check(case):
                         depends = True
         if judged == 0:
             return Result.discard("no-in-domain-point", classes)
+        # the same expression object against another variable list (a cache must not hand back the first callable)
+        order2 = case.get("order2")
+        if order2 and order2 != list(order):
+            classes.append("recompiled-with-second-V")
+            try:
+                V2 = [objs[n] for n in order2]
+                f2 = compile_expression(e, V2)
+                ce2 = CompiledExpression(e, V2)
+            except Exception as ex:
+                return Result.violation(f"compile-raises:{exc_label(ex)}", f"{show(recipe)} second V={order2}: {ex!r}", classes)
+            pv = rounds[-1]
+            for pt in case["points"]:
+                ref, sc = float_ref(env, recipe, pt, pv)
+                if not sc.ok or sc.maxabs > 1e6:
+                    continue
+                x2 = np.array([pt[n] for n in order2], dtype=float)
+                try:
+                    got = {"compile": to_float(f2(x2)), "CompiledExpression.value": to_float(ce2.value(x2))}
+                except Exception as ex:
+                    return Result.violation(f"call-raises:{exc_label(ex)}", f"{show(recipe)} second V={order2} at {pt}: {ex!r}", classes)
+                for k, fv in got.items():
+                    if not close(fv, ref, sc.maxabs):
+                        return Result.violation(f"value-mismatch-second-V:{k}",
+                                                f"{show(recipe)} compiled first with V={order}, then with V={order2}; at {pt}: "
+                                                f"{k}={fv!r} reference={ref!r}", classes)
     own = sorted(gen.used_vars(recipe, env), key=natural_key)
     nontrivial = n_ops(recipe) >= 3 and depends and list(order) != own
     return Result.ok(nontrivial, classes)
